@@ -82,6 +82,18 @@ def run(tier):
         h["ops"] = (recs[:2] + [{"op": "wb"}] * (i % 2) + recs[2:3] + [{"op": "rot", "export": i % 4 < 2, "same": True}] + recs[:1]
                     + [{"op": "wb"}] + ([{"op": "rot", "export": True, "same": True}] if i % 3 == 0 else []) + recs[1:2])
         hs.append(h)
+    # the documented way of putting a NEWLY ADDED parameter set in force while the current output already holds blocks:
+    # add_block_parameters, set_active_block_parameters(new index), (a few records, fewer than a block), rotate_output(export):
+    # the block still being buffered belongs to the old output and states a set of ITS preamble
+    for i in range(16 if tier == "quick" else 160):
+        h = histgen.gen_history(rng, nops=rng.choice([5, 9]), comp=["none", "gz", "xz"][i % 3], out=["file", "fd"][i % 2], sizes=[10000], nbps=1, rot=False,
+                                allow_edit=False)
+        recs = [o for o in h["ops"] if o["op"] in ("qr", "aec", "mm")] or [{"op": "qr", "r": {"client_port": histgen.nat(7)}}]
+        pools = histgen.Pools(rng)
+        nb = histgen.gen_bp(rng, pools, tps=histgen.tps_of(h["preamble"]["bps"][0]), maxitems=10000)
+        h["ops"] = (recs[:2] + [{"op": "wb"}] + ([] if i % 4 == 0 else recs[2:3] + [{"op": "wb"}]) + [{"op": "addbp", "bp": nb}, {"op": "setbp", "i": 1}]
+                    + (recs[:2] if i % 2 else []) + [{"op": "rot", "export": True}] + recs[:2] + [{"op": "wb"}])
+        hs.append(h)
     m = run_histories(chk, hs, {"C02"}, label="c02")
     # partial (short) writes of the operating system on descriptor outputs: no failure of the output, the rest can be
     # offered again - an output closed normally after one, with no exception reported, must still be a complete document
